@@ -162,6 +162,13 @@ pub trait Harness: Sync {
     fn pow_for_side_conditions(&self) -> PowEnc {
         PowEnc::Opaque
     }
+    /// solver binary: z3 4.8.12 decides the real-arithmetic queries fastest, z3 5.1 (z3-new) the floating-point ones
+    fn solver(&self, default: &str) -> String {
+        if default != "z3" {
+            return default.to_string();
+        }
+        if self.mode() == Mode::Fp { "z3-new".into() } else { "z3".into() }
+    }
     /// rng-tag mode: from_f64(k*2^-53), 1 <= k <= rng_tags, becomes the variable x{k-1}
     fn rng_tags(&self) -> usize {
         0
@@ -249,6 +256,19 @@ impl PartResult {
         for s in o.samples {
             if self.samples.len() < 12 {
                 self.samples.push(s);
+            }
+        }
+        // second opinion: accumulate counts
+        {
+            let g = |v: &Value, k: &str| v.get(k).and_then(|x| x.as_u64()).unwrap_or(0);
+            if !o.second_opinion.is_null() {
+                let a = &self.second_opinion;
+                self.second_opinion = json!({
+                    "rechecked": g(a, "rechecked") + g(&o.second_opinion, "rechecked"),
+                    "agree": g(a, "agree") + g(&o.second_opinion, "agree"),
+                    "undecided_by_other": g(a, "undecided_by_other") + g(&o.second_opinion, "undecided_by_other"),
+                    "solvers": "z3 4.8.12 and z3 5.1.0 (z3-new); primary: z3 for real arithmetic, z3-new for floating point",
+                });
             }
         }
         self.violations.extend(o.violations);
@@ -898,7 +918,8 @@ pub fn check_harness<H: Harness>(h: &H, cfg: &RunCfg) -> PartResult {
     // stage 1: path feasibility; stage 2: everything else, for the paths not pruned
     let stage1: Vec<usize> = (0..queries.len()).filter(|k| matches!(kinds[*k], QKind::Feasible { .. })).collect();
     let q1: Vec<Query> = stage1.iter().map(|k| queries[*k].clone()).collect();
-    let (v1, st1) = run_queries(&cfg.solver, &q1);
+    let solver = h.solver(&cfg.solver);
+    let (v1, st1) = run_queries(&solver, &q1);
     let mut pruned: BTreeSet<usize> = BTreeSet::new();
     for (j, k) in stage1.iter().enumerate() {
         if let (QKind::Feasible { path, .. }, Answer::Unsat) = (&kinds[*k], &v1[j].answer) {
@@ -933,7 +954,50 @@ pub fn check_harness<H: Harness>(h: &H, cfg: &RunCfg) -> PartResult {
         .filter(|k| !matches!(&kinds[*k], QKind::Witness { name, .. } if witness_found_early.contains(name)))
         .collect();
     let q2: Vec<Query> = stage2.iter().map(|k| queries[*k].clone()).collect();
-    let (v2, st2) = run_queries(&cfg.solver, &q2);
+    let (v2, st2) = run_queries(&solver, &q2);
+    // second opinion: a sample of the decided queries goes to the other z3 build; a disagreement voids the run
+    {
+        let other = if solver == "z3" { "z3-new" } else { "z3" };
+        let cap = if cfg.tier == Tier::Quick { 3 } else { 40 };
+        let mut picked: Vec<usize> = vec![];
+        let mut seen_text: BTreeSet<u64> = BTreeSet::new();
+        for (j, v) in v2.iter().enumerate() {
+            if picked.len() >= cap {
+                break;
+            }
+            // cheap ones only: the point is to cross-check the encoding, not to double the run time
+            if v.dedup || v.secs > 2.0 || matches!(v.answer, Answer::Unknown(_)) {
+                continue;
+            }
+            if (j as u64 + cfg.seed) % 7 != 0 {
+                continue;
+            }
+            use std::hash::{Hash, Hasher};
+            let mut hh = std::collections::hash_map::DefaultHasher::new();
+            q2[j].text.hash(&mut hh);
+            if seen_text.insert(hh.finish()) {
+                picked.push(j);
+            }
+        }
+        let q3: Vec<Query> = picked.iter().map(|j| { let mut q = q2[*j].clone(); q.timeout_s = q.timeout_s.min(if cfg.tier == Tier::Quick { 5 } else { 20 }); q }).collect();
+        let (v3, st3) = run_queries(other, &q3);
+        let mut agree = 0;
+        let mut undecided = 0;
+        for (k, j) in picked.iter().enumerate() {
+            let a = matches!(v2[*j].answer, Answer::Unsat);
+            match &v3[k].answer {
+                Answer::Unknown(_) => undecided += 1,
+                ans => {
+                    if matches!(ans, Answer::Unsat) == a {
+                        agree += 1;
+                    } else {
+                        res.hard_failures.push(format!("{}: solvers disagree ({} vs {}) on {}", h.name(), solver, other, q3[k].label));
+                    }
+                }
+            }
+        }
+        res.second_opinion = json!({"primary": solver, "other": other, "rechecked": picked.len(), "agree": agree, "undecided_by_other": undecided, "solver_s": st3.solver_s});
+    }
     let mut verdicts: Vec<Verdict> = (0..queries.len()).map(|_| Verdict { answer: Answer::Unknown("skipped: path infeasible".into()), secs: 0.0, dedup: true }).collect();
     for (j, k) in stage1.iter().enumerate() {
         verdicts[*k] = v1[j].clone();
